@@ -37,7 +37,7 @@ def st_append_arg(draw, valid_only=False):
 
 @st.composite
 def st_array_op(draw, shape_rank, extra=()):
-    o = draw(st.sampled_from(['append', 'append', 'iterappend', 'set', 'trunc', 'trunc', 'mode', 'reopen', 'ctx', 'copy'] + list(extra)))
+    o = draw(st.sampled_from(['append', 'append', 'iterappend', 'set', 'trunc', 'trunc', 'mode', 'reopen', 'ctx', 'copy', 'failappend'] + list(extra)))
     if o == 'append':
         return {'o': 'append', 'arg': draw(st_append_arg())}
     if o == 'iterappend':
@@ -61,6 +61,9 @@ def st_array_op(draw, shape_rank, extra=()):
         return {'o': 'overwrite', 'start': draw(st_start()), 'over': draw(st.sampled_from(['same', 'same', 'ragged']))}
     if o == 'copy':
         return {'o': 'copy', 'chunklen': draw(st.sampled_from([None, 1, 2, 3]))}
+    if o == 'failappend':
+        return {'o': 'failappend', 'chunks': [draw(st_append_arg(valid_only=True)) for _ in range(draw(st.integers(0, 3)))],
+                'kind': draw(st.sampled_from(['raise', 'badshape', 'unconv']))}
     if o == 'ctx':
         inner = [draw(st.one_of(st.builds(lambda a: {'o': 'append', 'arg': a}, st_append_arg(valid_only=True)),
                                 st.just({'o': 'iterappend', 'chunks': [{'k': 'rows', 'n': 2, 'seed': 5}, {'k': 'zero', 'n': 1, 'seed': 6}], 'gen': True}),
@@ -86,7 +89,13 @@ def st_array_history(draw, max_ops=10, extra=()):
     start = draw(st_start())
     n = draw(st.integers(1, max_ops))
     ops = [draw(st_array_op(len(start['shape']), extra)) for _ in range(n)]
-    return {'start': start, 'ops': ops}
+    spec = {'start': start, 'ops': ops}
+    if draw(st.sampled_from([False, False, True])):
+        spec['lazy'] = True
+        for op in ops:
+            if draw(st.sampled_from([True, False, False, False])):
+                op['lo'] = True
+    return spec
 
 
 # ------------------------------------------------------------------ building operands
@@ -283,7 +292,7 @@ class ArrayRun:
         import darr
         if 'model' in self.oracles:
             # while an enclosing context holds the (fixed-shape) memory map open only a fresh handle can see new data
-            handles = [] if getattr(self, 'in_ctx', False) else [('live', a)]
+            handles = [] if (getattr(self, 'in_ctx', False) or getattr(self, 'skip_live', False)) else [('live', a)]
             try:
                 handles.append(('fresh', darr.Array(self.path)))
             except Exception as e:
@@ -318,7 +327,7 @@ class ArrayRun:
                          f'step {self.stepno}: decoded {arr.dtype.str}{arr.shape} model {m.dtype.str}{m.shape}')
                 return False
             try:
-                src = darr.Array(self.path) if getattr(self, 'in_ctx', False) else a
+                src = darr.Array(self.path) if (getattr(self, 'in_ctx', False) or getattr(self, 'skip_live', False)) else a
                 api = src[:]
                 if np.dtype(src.dtype).str != arr.dtype.str or tuple(src.shape) != arr.shape or api.tobytes() != arr.tobytes():
                     out.viol('raw-decode-differs-from-api', tag,
@@ -438,6 +447,40 @@ class ArrayRun:
             if not chunks:
                 self.out.cls('iterappend-empty:' + empty)
             if not self.expect_ok(tag, lambda: a.iterappend(it)):
+                return False
+            self.m = newm
+            return self.observe(tag)
+        if o == 'failappend':
+            # an iterappend that fails after len(chunks) good chunks: it must raise and exactly the good chunks are kept (C09);
+            # the history then goes on through the same handle
+            if self.mode == 'r' or getattr(self, 'in_ctx', False):
+                return True
+            chunks = [build_append_operand(c if not (c['k'] == 'scalar' and m.ndim > 1) else dict(c, k='rows'), m)
+                      for c in op['chunks']]
+            fk = op['kind']
+            tag = f"failappend:{fk}:{len(chunks)}:{empty}"
+            self.kinds.append('failappend')
+            self.out.cls('failed-append-in-history', f'failed-append:{fk}')
+            bad = build_append_operand({'k': 'badshape', 'n': 1, 'seed': 3}, m) if fk == 'badshape' else [['x'] * 2] if fk == 'unconv' else None
+
+            class _Boom(Exception):
+                pass
+
+            def src():
+                for c in chunks:
+                    yield c
+                if bad is None:
+                    raise _Boom('data source failed')
+                yield bad
+            newm = m
+            for c in chunks:
+                newm = model_append(newm, c)
+            try:
+                a.iterappend(src())
+            except Exception:
+                pass
+            else:
+                self.out.viol('no-raise', tag, f'step {self.stepno}: failing iterappend did not raise')
                 return False
             self.m = newm
             return self.observe(tag)
@@ -628,12 +671,22 @@ def run_array_history(ctx, spec, oracles):
         if not run.observe('create'):
             return out, run
         prev = None
+        lazy = bool(spec.get('lazy'))
+        if lazy:
+            out.cls('live-handle-observed-lazily')
+        ok = True
         for op in spec['ops']:
             was0 = len(run.m) == 0 and prev == 'trunc'
             if was0 and op['o'] in ('append', 'iterappend') and run.mode == 'r+':
                 out.cls('trunc0-then-append')
+            # lazy histories read the live handle only after the ops flagged 'lo' and at the end (a fresh one after every step)
+            run.skip_live = lazy and not op.get('lo', False)
             if not run.step(op):
+                ok = False
                 break
             prev = op['o']
+        run.skip_live = False
+        if ok and lazy:
+            run.observe('final:live')
         run.a = None
     return out, run
